@@ -9,15 +9,23 @@ def coq_codes(s):
 def run(r):
     quick = r.tier == "quick"
     r.trusted += TRUSTED_COMMON + [
-        "the formatter's layout decisions (multi-line arrays/functions/packs, alignment, comments, output comments) and the "
-        "lexer's name->glyph resolution are NOT modelled: for them the property is decided by the V tie and the search only",
-        "the exporter of compiled trees drops spans, label names, binding metadata and hashes non-integer constants; the search "
-        "additionally compares Node's Debug rendering (positions masked), compile success, stacks and captured stdout",
-        "program runs use the safe backend with a time limit; nondeterministic programs (random numbers, clocks) are excluded "
-        "when the source does not reproduce its own result",
+        "NOT modelled in Fmt.v (decided by the V tie and the search only): multi-line layout (arrays, functions, packs, modules, data "
+        "definitions, imports), comments of every kind and their alignment, output comments, signatures, modifiers and the spacing of "
+        "their operands, the lexer's name->glyph table (a name run carries the glyphs it denotes; the C tie re-lexes every case with the "
+        "real lexer and drops the case as uncovered when the real lexer reads other words), letters of other scripts, = written by name",
+        "the exporter of compiled trees drops spans, label names and hashes non-integer constants; the search additionally compares Node's "
+        "Debug rendering (positions masked), every binding's kind and public/private flag, and the names with their visibility that the "
+        "text exports when compiled as the body of a module",
+        "program runs, compilations and the formatter's own evaluation of output comments use the sandboxed backend (nothing is read or "
+        "written) with an execution limit; a run that ends on a resource limit (time, memory, size) is inconclusive, a difference is "
+        "reported only after both programs reproduced it in sequential re-runs; nondeterministic programs are excluded",
+        "the five formatter options are enumerated: all 16 boolean combinations x multiline_indent in {0,1,2,3,4,8} (thorough), a covering "
+        "subset of 26 (quick)",
     ]
-    r.assumptions += ["relex_render/render_idempotent: token sequences satisfying wf_tokens (single line, classes of Model/Fmt.v)",
-                      "prog_eqb_sound: none (all nodes, all run-time states)"]
+    r.assumptions += ["C10_relex_render / C10_render_idempotent / C10_unsplit_relex: wf_tokens ts (one line of words of the classes of "
+                      "Model/Fmt.v, as the lexer can produce them; lines joined by the ; marker must not end in a macro with bangs)",
+                      "C10_adjacency: valid_tok of both words and the side condition of wf_go between them",
+                      "C10_node_eqb_sound / C10_prog_eqb_sound: none (all trees, all run-time states, all interpretations of the primitives)"]
     if not r.harness(["c10"]):
         return
     r.proofs()
@@ -36,9 +44,13 @@ def ctie(r, quick):
     cases = [l for l in lines if "toks" in l and l.get("relex")]
     norelex = sum(1 for l in lines if "toks" in l and not l.get("relex"))
     summ = next((l for l in lines if l.get("summary")), {})
-    if rc != 0 or not summ or norelex:
+    if rc != 0 or not summ:
         r.broken_obligation("tie-harness:ctie", "c10 ctie failed to run", (out + err)[-2000:])
         return
+    if norelex:
+        ex = next(l for l in lines if "toks" in l and not l.get("relex"))
+        r.broken_obligation("tie:Fmt.v~format_str", "format_str printed text that the real lexer does not read as words of the model's classes, for %d covered case(s)" % norelex,
+                            json.dumps({"src": ex["src"], "format_str": ex["out"], "tokens": ex["toks"]}, ensure_ascii=False))
     if not cases:
         r.coverage["tie_C"] = {"cases": 0, "note": "no case emitted"}
         return
@@ -65,6 +77,7 @@ def ctie(r, quick):
                            "mismatches": len(mism), "uncovered_by_model": summ.get("uncovered", 0),
                            "unparseable": summ.get("unparseable", 0), "adjacent_class_pairs_seen": len(pairs),
                            "changed_by_format": sum(1 for c in cases if c["src"].rstrip("\n") != c["out"].rstrip("\n")),
+                           "lines_joined_by_unsplit_marker": summ.get("unsplit_cases", 0),
                            "length_hist": summ.get("lengths")}
     for c in cases[:2]:
         r.sample({"tie": "C", "src": c["src"], "format_str": c["out"], "tokens": c["toks"][:200]})
@@ -120,7 +133,7 @@ def vtie(r, quick):
 # ---------------------------------------------------------------- search
 
 def search(r, quick):
-    n = 100 if quick else 2500
+    n = 80 if quick else 2500
     args = ["search", n, "--threads", max(4, min(14, NCPU - 2))]
     if not quick:
         args += ["--configs", "all"]
@@ -168,8 +181,17 @@ def search(r, quick):
     r.sample({"search": "counts by key", "violation_keys": summ.get("violation_keys")})
     r.coverage["evaluations"] = summ["evaluations"] + r.coverage.get("tie_V", {}).get("pairs", 0) + r.coverage.get("tie_C", {}).get("cases", 0)
     r.coverage["distinct_nontrivial"] = summ["changed_by_format"]
-    r.coverage["rule"] = ("search evaluations = (source, configuration) pairs; sources = seeds + corpus files + corpus chunks (split at blank lines) + "
-                          "their re-renderings from the real lexer's tokens (ASCII primitive names, = for <-, ` for negative, ,n subscripts, extra spaces, "
-                          "line breaks inside brackets) + generated programs (bindings, modules, imports, data definitions, packs, multi-line arrays/functions, "
-                          "strings, comments of every kind); non-trivial = the formatter changed the text")
+    r.coverage["rule"] = ("search evaluation = one (source, formatter configuration) pair, checked for: second pass = first pass, output parses, "
+                          "compiles iff, equal trees (exported + Debug rendering + binding visibility + module-body interface), equal stacks and "
+                          "stdout. Sources: regression seeds (every former counterexample), corpus files, corpus chunks (split at blank lines), "
+                          "their re-renderings from the real lexer's tokens (ASCII primitive names, = for <-, ` for negative, ,n subscripts, extra "
+                          "spaces, line breaks inside brackets, ; unsplit markers at line ends/starts), the module-visibility family (header import "
+                          "lines in all 4 visibility combinations, nested, used from outside, private bindings/imports), the unsplit-marker family "
+                          "(; between identifiers/numbers/glyphs/strings in functions, arrays, packs, top level), generated programs (bindings, "
+                          "modules, imports, data definitions, packs, multi-line arrays/functions, strings, comments of every kind, numbers with "
+                          "exponent signs and signed fractions). Failing inputs are shrunk (lines, then graphemes) and keyed "
+                          "fmt:<option>/<construct>. Non-trivial = the formatter changed the text. C tie: generated lines of model words "
+                          "(incl. lines joined by ;), spelled with arbitrary spacing and ASCII spellings, format_str output byte-compared with "
+                          "render and the real lexer's reading of it with lex. V tie: node_eqb evaluated in Coq on the exported trees of "
+                          "(source, formatted) pairs.")
     r.log("search: %d evaluations over %d sources x %d configs, %d reported" % (summ["evaluations"], summ["sources"], summ["configs"], len(viols)))
